@@ -6,10 +6,11 @@
    length s has chord 2 r sin(s / 2r): C12_chord / C12_sagitta bound chord and chord error from s.
    PARTIAL: the theorems are about the rational model of the filter; the implementation runs it in binary64
    (tied by the correspondence on dyadic inputs, where binary64 is exact; C12_filter_robust shows that the bounds
-   survive any run whose comparisons are only correct up to an accumulated error delta); the halving
+   survive any run whose comparisons are only correct up to an accumulated error delta, and C12_filter_float that under
+   the standard model of floating-point rounding the implementation's run is such a run with delta = (2K+1) u res); the halving
    clause is proved under an explicit hypothesis on the two sampled polylines (C12_halving). *)
-From Coq Require Import ZArith QArith Qround Bool List Reals.
-From GS Require Import gen.GenTables model.TracerQ proofs.TracerQProofs proofs.ChordProofs proofs.TracerRobust.
+From Coq Require Import ZArith QArith Qabs Qround Bool List Reals.
+From GS Require Import gen.GenTables model.TracerQ proofs.TracerQProofs proofs.ChordProofs proofs.TracerRobust proofs.TracerFloat.
 Import ListNotations.
 Open Scope Q_scope.
 
@@ -72,6 +73,28 @@ Proof. exact filter_bounds_robust. Qed.
 Theorem C12_exact_is_robust : forall res ds rem, rmask res 0 rem ds (mask_loop res rem ds).
 Proof. exact exact_is_rmask. Qed.
 Print Assumptions C12_filter_robust.
+
+(* ... and under the STANDARD MODEL of floating-point arithmetic the implementation's run is such a run.  [fmask rnd] is the
+   filter with a rounding after every `remaining -= distance` and a rounded threshold.  For EVERY rounding function of relative
+   error at most u (|rnd x - x| <= u |x|: round-to-nearest without underflow; u = 2^-53 for binary64), every resolution, every
+   list of distances not larger than the resolution, and K = the longest accumulation window (constant-speed shapes: K <= 11
+   by C12_sampling): all bounds hold with delta = (2 K + 1) u res -- about 2.6e-15 res in binary64 with K = 11.  That binary64
+   satisfies the standard model is the textbook property of IEEE-754 (not re-proved here; inputs within the normal range). *)
+Theorem C12_filter_float : forall rnd u res that K dmax ds, 0 <= u -> (forall x, Qabs (rnd x - x) <= u * Qabs x) ->
+  0 < res -> (0 < K)%nat -> 2 * inject_Z (Z.of_nat K) * u <= 1 # 20 ->
+  Qabs (that - res / filter_tolerance_div) <= u * res ->
+  Forall (fun d => 0 <= d /\ d <= dmax) ds -> dmax <= res -> ds <> [] ->
+  windows_le K 0 (fmask rnd res that res ds) ->
+  let delta := (2 * inject_Z (Z.of_nat K) + 1) * (u * res) in
+  let S := seg_loop 0 (fmask rnd res that res ds) ds in
+  Forall (fun T => T <= (9 # 10) * res + delta + dmax) S /\
+  all_but_last (fun T => (9 # 10) * res - delta < T) S /\
+  qsum S == qsum ds.
+Proof. exact float_filter_bounds. Qed.
+Print Assumptions C12_filter_float.
+
+Theorem C12_float_exact : forall res ds rem, fmask (fun x => x) res (res / filter_tolerance_div) rem ds = mask_loop res rem ds.
+Proof. exact fmask_exact. Qed.
 
 (* from travelled (arc) length to chord length and chord error, on a circle of radius r (real numbers; standard-library
    axioms of the reals, see Print Assumptions): a segment spanning arc length s <= 2 r has chord between
